@@ -23,6 +23,9 @@ type c09Case struct {
 	Pre      [][]sdsl.Op `json:"pre"`       // history that builds the pre-state (full stores) or the base of the merge target (partial)
 	Blocks   [][]sdsl.Op `json:"blocks"`    // blocks whose operation log is recorded and replayed
 	FromSnap bool        `json:"from_snap"` // full: the twin is loaded from the snapshot saved by the original instead of re-running the history
+	// Deferred: the logs are kept as ReadOps handed them out (no copy, as the per-block output buffers of the
+	// pipeline keep them) and replayed only after the original executed every block
+	Deferred bool `json:"deferred"`
 }
 
 func genC09(t *rapid.T, kind sdsl.Kind) c09Case {
@@ -30,6 +33,7 @@ func genC09(t *rapid.T, kind sdsl.Kind) c09Case {
 	c.Pre = sdsl.GenBlocks(t, kind, 0, 3, 5, 12)
 	c.Blocks = sdsl.GenBlocks(t, kind, 1, 4, 5, 20)
 	c.FromSnap = rapid.Bool().Draw(t, "from_snap")
+	c.Deferred = rapid.IntRange(0, 2).Draw(t, "deferred") == 0
 	return c
 }
 
@@ -104,13 +108,11 @@ func checkC09(c c09Case) *ev.Failure {
 			}
 			twin.Reset()
 		}
-		for i, ops := range c.Blocks {
-			if _, err := execBlock(orig, c.Kind, num, ops); err != nil {
-				return ev.Failf("exec-error", "block %d failed: %v", i, err)
-			}
-			// order used by StoreModuleExecutor.wrapDeltasAndOps: Flush, GetDeltas, ReadOps
-			wantDeltas := cloneDeltas(orig.GetDeltas())
-			log := orig.ReadOps()
+		var logs [][]byte
+		var wants [][]*pbsubstreams.StoreDelta
+		var contents []map[string][]byte
+		var sizes []uint64
+		replay := func(i int, log []byte, wantDeltas []*pbsubstreams.StoreDelta, wantContent map[string][]byte, wantSize uint64) *ev.Failure {
 			twin.Reset() // what Stores.resetStores does after each block
 			if err := twin.ApplyOps(log); err != nil {
 				return ev.Failf("apply-ops-error", "block %d: ApplyOps: %v", i, err)
@@ -124,13 +126,33 @@ func checkC09(c c09Case) *ev.Failure {
 					return ev.Failf("full/deltas", "block %d: delta %d differs\noriginal: %s\nreplay:   %s", i, j, deltasString(wantDeltas), deltasString(got))
 				}
 			}
-			if d := bytewiseDiff(sdsl.Snapshot(orig), sdsl.Snapshot(twin)); d != "" {
+			if d := bytewiseDiff(wantContent, sdsl.Snapshot(twin)); d != "" {
 				return ev.Failf("full/content", "block %d: content differs after replay: %s", i, d)
 			}
-			if orig.SizeBytes() != twin.SizeBytes() {
-				return ev.Failf("full/size", "block %d: SizeBytes original %d replay %d", i, orig.SizeBytes(), twin.SizeBytes())
+			if wantSize != twin.SizeBytes() {
+				return ev.Failf("full/size", "block %d: SizeBytes original %d replay %d", i, wantSize, twin.SizeBytes())
+			}
+			return nil
+		}
+		for i, ops := range c.Blocks {
+			if _, err := execBlock(orig, c.Kind, num, ops); err != nil {
+				return ev.Failf("exec-error", "block %d failed: %v", i, err)
+			}
+			// order used by StoreModuleExecutor.wrapDeltasAndOps: Flush, GetDeltas, ReadOps
+			wantDeltas := cloneDeltas(orig.GetDeltas())
+			log := orig.ReadOps()
+			if c.Deferred {
+				logs, wants, contents, sizes = append(logs, log), append(wants, wantDeltas), append(contents, sdsl.Snapshot(orig)), append(sizes, orig.SizeBytes())
+			} else if f := replay(i, log, wantDeltas, sdsl.Snapshot(orig), orig.SizeBytes()); f != nil {
+				return f
 			}
 			num++
+		}
+		for i := range logs {
+			if f := replay(i, logs[i], wants[i], contents[i], sizes[i]); f != nil {
+				f.Sig += "/deferred"
+				return f
+			}
 		}
 		return nil
 	}
@@ -140,16 +162,27 @@ func checkC09(c c09Case) *ev.Failure {
 	num = start
 	orig := e.cfg.NewPartialKV(start, nop)
 	twin := e.cfg.NewPartialKV(start, nop)
+	var plogs [][]byte
 	for i, ops := range c.Blocks {
 		if _, err := execBlock(orig, c.Kind, num, ops); err != nil {
 			return ev.Failf("exec-error", "block %d failed: %v", i, err)
 		}
 		log := orig.ReadOps()
-		twin.Reset()
-		if err := twin.ApplyOps(log); err != nil {
-			return ev.Failf("apply-ops-error", "block %d: ApplyOps on partial: %v", i, err)
+		if c.Deferred {
+			plogs = append(plogs, log)
+		} else {
+			twin.Reset()
+			if err := twin.ApplyOps(log); err != nil {
+				return ev.Failf("apply-ops-error", "block %d: ApplyOps on partial: %v", i, err)
+			}
 		}
 		num++
+	}
+	for i, log := range plogs {
+		twin.Reset()
+		if err := twin.ApplyOps(log); err != nil {
+			return ev.Failf("apply-ops-error/deferred", "block %d: ApplyOps on partial of a log kept since its block: %v", i, err)
+		}
 	}
 	orig.Reset()
 	twin.Reset()
@@ -232,11 +265,14 @@ func classifyC09(c c09Case) (bool, []string) {
 			cl = append(cl, "twin-from-snapshot")
 		}
 	}
+	if c.Deferred {
+		cl = append(cl, "logs-replayed-after-all-blocks")
+	}
 	return nt, cl
 }
 
 func TestC09(t *testing.T) {
-	ev.Get("C09", "ReplayOps").Rule = "rapid: every kind in rotation; pre-state from 0..3 blocks, then 1..4 blocks (20% delete_prefix, arbitrary ordinals) executed through the host interface, log read with ReadOps after Flush, replayed with Reset+ApplyOps on a twin (same history or loaded from the saved snapshot) full store (deltas proto-equal, content bytewise, size) or partial store (content, size, DeletedPrefixes, and the squash of the replayed partial vs the original one); non-trivial = a block with a delete_prefix or two ops on one key"
+	ev.Get("C09", "ReplayOps").Rule = "rapid: every kind in rotation; pre-state from 0..3 blocks, then 1..4 blocks (20% delete_prefix, arbitrary ordinals) executed through the host interface, log read with ReadOps after Flush, replayed with Reset+ApplyOps (block by block, or, 1 case in 3, all logs kept as handed out and replayed after the last block) on a twin (same history or loaded from the saved snapshot) full store (deltas proto-equal, content bytewise, size) or partial store (content, size, DeletedPrefixes, and the squash of the replayed partial vs the original one); non-trivial = a block with a delete_prefix or two ops on one key"
 	kinds := sdsl.AllKinds()
 	shard, _ := ev.Shard()
 	ev.Prop(t, "C09", "ReplayOps", func(t *rapid.T) c09Case {
